@@ -70,7 +70,9 @@ def run(chk):
             chk.add_cases(ddoc["evaluations"], ddoc["distinct"], ddoc["samples"],
                           "correspondence: random PoolSum expressions (uninterpreted f/g/h, sums, products, powers, 0..4 "
                           "indices, rational/symbolic pools with singletons and duplicates, nesting <= 3, builder-shaped "
-                          "nests, malformed quirks) x {doit, evaluate, free_symbols, cleanup, subs lists, xreplace maps "
+                          "nests, depth-3 'shadow' nests where a symbol is free at one level and bound deeper or in a sibling "
+                          "sum, pools handed to the constructor as tuple/list/Tuple/range/dict-keys/generator/map/iter/chain, "
+                          "malformed quirks) x {doit, evaluate, free_symbols, cleanup, subs lists, xreplace maps "
                           "incl. bound/free/absent symbols and node keys, HelicityModel.expression}; model (vm_compute) vs "
                           "implementation, structural == after rebuilding through SymPy constructors")
             chk.cov["input_distribution"] = {"correspondence": ddoc["kinds"]}
